@@ -74,7 +74,7 @@ func genC06(r *simrt.RNG, tier string, variant int) Plan {
 		p.Clients[0].PingNs = -1
 		p.Clients[0].TimeoutNs = int64(3600e9) // and no idle read deadline either
 		p.Faults = append(p.Faults, Fault{Kind: "wstall", Dir: "s2c", Pipe: 0, Frame: -1, Phase: r.Intn(80)})
-		p.Ops = append(p.Ops, Op{Kind: "ctx", Client: 0, Tok: tok, Size: 20500})
+		p.Ops = append(p.Ops, Op{Kind: "call", Client: 0, Tok: tok, Size: 20500, Phase: Pick(r, []int{0, 20, 60})})
 		tok++
 	}
 	return p
@@ -275,10 +275,22 @@ func runC06(e *Env, p *Plan) {
 		return
 	}
 	w.CheckAllReturned("C06.calls-return")
+	wsClient := map[string]bool{}
+	for _, cp := range p.Clients {
+		wsClient[cp.Name] = cp.Kind == "ws"
+	}
 	for _, t := range e.SortedToks() {
-		if t.Kind == "ctx" && t.Returned && !t.Cancelled {
+		if (t.Kind == "ctx" || t.Kind == "call") && t.Returned && !t.Cancelled {
 			if t.RetErr != nil || t.Val != Result(t.ID, t.Size) {
 				e.Violate("C06.sibling-undisturbed", "tok=%d was not cancelled but returned (%q, %v)", t.ID, trunc(t.Val), t.RetErr)
+			}
+		}
+		// a cancelled WebSocket call still waits for, and gets, what its handler
+		// produced (these handlers ignore the cancellation and answer when released);
+		// it must not return anything the server never sent
+		if t.Kind == "ctx" && t.Returned && t.Cancelled && wsClient[t.Client] && t.Execs > 0 {
+			if t.RetErr != nil || t.Val != Result(t.ID, t.Size) {
+				e.Violate("C06.cancelled-call-gets-its-own-response", "tok=%d was cancelled by its caller; its handler still answered %q, but the call returned (%q, %v)", t.ID, trunc(Result(t.ID, t.Size)), trunc(t.Val), t.RetErr)
 			}
 		}
 	}
